@@ -319,9 +319,19 @@ pub fn explore(w: &Value, out: &mut impl Write) -> bool {
     let (shard_i, shard_n) = w.get("shard").and_then(|v| v.as_array()).map(|a| (a[0].as_u64().unwrap() as usize, a[1].as_u64().unwrap() as usize)).unwrap_or((0, 1));
     let mut stack: Vec<Vec<String>> = vec![vec![]];
     let (mut n, mut steps, mut capped) = (0usize, 0usize, false);
+    let mut retried = 0usize;
     let mut max_pre = 0u32;
     while let Some(prefix) = stack.pop() {
-        let e = if prefix.is_empty() { run_one(w, &[]) } else { run_one(w, &prefix) };
+        let mut e = run_one(w, &prefix);
+        // A prefix recorded by the parent execution must be replayable. A divergence is a hard machinery error, but the
+        // execution is retried first: under extreme machine load a single run can be perturbed (observed once with
+        // concurrent compiler jobs saturating the box); a real loss of determinism reproduces on every attempt.
+        let mut attempts = 1;
+        while e.divergence.is_some() && attempts < 3 {
+            e = run_one(w, &prefix);
+            attempts += 1;
+            retried += 1;
+        }
         n += 1;
         steps += e.trace.len();
         if let Some(d) = &e.divergence {
@@ -371,7 +381,7 @@ pub fn explore(w: &Value, out: &mut impl Write) -> bool {
             break;
         }
     }
-    let _ = writeln!(out, "{}", json!({"w": name, "summary": {"schedules": n, "steps": steps, "bound": bound, "capped": capped, "max_preemptions_seen": max_pre}}));
+    let _ = writeln!(out, "{}", json!({"w": name, "summary": {"schedules": n, "steps": steps, "bound": bound, "capped": capped, "max_preemptions_seen": max_pre, "divergence_retries": retried}}));
     ok
 }
 
